@@ -57,6 +57,9 @@ def u64_universes():
     out.append(U("g1-i16-i48", g1(range(1, 14)), g1([14, 15, 16, 17, 18, 19]), probes=g1([0, 200]), variants=()))
     # 48/49 boundary
     out.append(U("g1-i48-i256", g1(range(1, 46)), g1([46, 47, 48, 49, 50, 51]), probes=g1([0, 200]), variants=()))
+    # an I48 whose children sit at high, sparse key bytes (seek has to walk the 256-entry index map, not the 48 slots)
+    out.append(U("g1-i48-high", g1([0x10 + 8 * i for i in range(18)]), g1([0x34, 0x9c, 0xf0, 0x05]), probes=g1([0x0f, 0xff]),
+                 variants=()))
     # fill to 256 and come back
     out.append(U("g1-full-256", g1([x for x in range(256) if x not in (0, 100, 101, 200, 255)]), g1([0, 100, 101, 200, 255]),
                  probes=[key(0, 0, 0, 0, 0, 0, 1)], variants=()))
